@@ -94,8 +94,12 @@ class TypeRegistry:
         if self.shortcut and hasattr(t, self.shortcut) and self.validator(getattr(t, self.shortcut)):
             # this type already got a callable transformer, do not resolve then
             return getattr(t, self.shortcut)
-        if self.cache and t in self._cache:
-            return self._cache[t]
+        if self.cache:
+            # a single read: a concurrent register() drops the cache, which may happen
+            # between a membership test and the lookup
+            cached = self._cache.get(t)
+            if cached is not None:
+                return cached
         for detector, trans, priority in self._registry:
             try:
                 if detector(t):
